@@ -27,7 +27,7 @@ import ast
 
 from ..absint import Interp, mk, sd
 from ..model import AnchorError, norm, walk_no_nested
-from ..runstate import Explorer, RunStateBinding, show, ENGINE, IMPL, GHOSTS
+from ..runstate import Explorer, Explorers, RunStateBinding, show, ENGINE, IMPL, GHOSTS
 from ..util import local_single_defs, cfg_of, call_attr, assigned_attrs, node_calls
 
 EXPLANATION = __doc__
@@ -41,7 +41,10 @@ def run(ctx) -> None:
         ctx.rule(r, d)
     eng = prog.cls(ENGINE)
     impl = prog.module(IMPL)
-    ex = Explorer(ctx, faults=True, track=("outs", "hw", "err", "cap"))
+    # two explorations: one user request per tick gap with a scheduler that may let in-flight commands stall (coarse), and two
+    # requests per gap with the exact scheduler of execute_commands (every driven command steps in every tick)
+    ex = Explorers(Explorer(ctx, faults=True, track=("outs", "hw", "err", "cap")),
+                   Explorer(ctx, faults=True, track=("outs", "hw", "err", "cap"), max_pending=2, exact=True))
     ex.explore()
     ctx.extra["states"] = len(ex.reach)
     ctx.extra["transitions"] = ex.edges
